@@ -419,6 +419,14 @@ impl<'a, 'b> TagBlock<'a, 'b> {
                                 Some(end_pos) => start_pos.span(&end_pos).as_str(),
                                 None => "",
                             };
+                            // `{%-` on the closing tag removes the whitespace before it, also
+                            // when an inner element that looks like markup has claimed it
+                            let output = if element_as_span.as_str().trim_start().starts_with("{%-")
+                            {
+                                output.trim_end_matches([' ', '\t', '\n', '\r'])
+                            } else {
+                                output
+                            };
 
                             return Ok(output);
                         }
